@@ -7,6 +7,7 @@ CONSTANTS
   MemLimit = 1000
   CtlTake = 1
   AllowOrphans = TRUE
+  AllowBodyDeadline = FALSE
   MaxSilent = 200
 INIT TInit
 NEXT TraceNext
